@@ -5,6 +5,7 @@ argv: in.json out.json
 in.json : {"dir": "<scratch sub-directory>", "timeout": 30.0, "mem_mb": 4096,
            "cases": [{"id": str, "w": 8|16|32|64, "v": 0..3, "stl": bool, "warm": bool,
                       "files": [[name, hex-of-bytes], ...], "max_depth": int|null,
+                      "debug": bool (pass debugging_file_path=<case dir>/out.fjd),
                       "timeout": float?, "mem_mb": int?}, ...]}
 out.json: one observation per case (nothing is judged here):
   {"result": "ok" | "exception" | "hang" | "crash",
@@ -13,6 +14,7 @@ out.json: one observation per case (nothing is judged here):
    "frame": innermost frame inside the repo of the ORIGINAL exception (function name), "frame_file": file (repo relative),
    "stage": "parse" | "parser-fold" | "macro-resolve" | "label-resolve" | "write" | "api" (outermost pipeline function on the stack),
    "has_pos": message carries an input file name and a line number, "idents": source identifiers found in the message,
+   "debug": bool, "dbg_exists": bool, "dbg_load": "loads" | "<exception class>" | null (only after a successful assembly),
    "out_exists": bool, "out_size": int, "reader": "accepts" | "<exception class>" | null, "secs": float}
 The child reports in two lines: what assemble() did (the watchdog period ends there), then what the Reader says.
 The default int->str digit limit of the interpreter is left untouched on purpose (it is part of the behaviour)."""
@@ -34,6 +36,7 @@ from flipjump.assembler import fj_parser  # noqa: E402
 from flipjump.fjm.fjm_consts import FJMVersion  # noqa: E402
 from flipjump.fjm.fjm_reader import Reader  # noqa: E402
 from flipjump.utils.exceptions import FlipJumpException  # noqa: E402
+from flipjump.utils.functions import load_debugging_labels  # noqa: E402
 
 REPO_ROOT = str(Path(flipjump.__file__).resolve().parent.parent)
 CATCH_ALL_TEXT = 'Unknown exception during assembling the .fj files, please report this bug'
@@ -105,6 +108,9 @@ def child(case, cdir, wfd):
     kw = {}
     if case.get('max_depth') is not None:
         kw['max_recursion_depth'] = case['max_depth']
+    dbg = cdir / 'out.fjd'
+    if case.get('debug'):
+        kw['debugging_file_path'] = dbg
     t0 = time.time()
     try:
         with open(os.devnull, 'w') as dn, contextlib.redirect_stdout(dn):
@@ -120,6 +126,8 @@ def child(case, cdir, wfd):
     sys.setrecursionlimit(5000)
     obs['out_exists'] = out.exists()
     obs['out_size'] = out.stat().st_size if out.exists() else 0
+    obs['debug'] = bool(case.get('debug'))
+    obs['dbg_exists'] = dbg.exists()
     # first line: what assemble() did (the watchdog stops here); second line: what the Reader says about the output path
     os.write(wfd, (json.dumps(obs) + '\n').encode())
     reader = None
@@ -130,7 +138,15 @@ def child(case, cdir, wfd):
             reader = 'accepts'
         except BaseException as e:  # noqa
             reader = exc_name(e)
-    os.write(wfd, (json.dumps({'reader': reader}) + '\n').encode())
+    # the debugging-labels file of a successful assembly must load back (load_debugging_labels)
+    dbg_load = None
+    if case.get('debug') and obs['result'] == 'ok':
+        try:
+            labels = load_debugging_labels(dbg)
+            dbg_load = 'loads' if isinstance(labels, dict) else f'not a dict: {type(labels).__name__}'
+        except BaseException as e:  # noqa
+            dbg_load = exc_name(e)
+    os.write(wfd, (json.dumps({'reader': reader, 'dbg_load': dbg_load}) + '\n').encode())
     os.close(wfd)
 
 
@@ -177,7 +193,9 @@ def run_case(case, base, default_timeout):
     lines = buf.split(b'\n')
     if len(lines) >= 2 and lines[0]:
         obs = json.loads(lines[0].decode())
-        obs['reader'] = json.loads(lines[1].decode())['reader'] if len(lines) >= 3 and lines[1] else None
+        second = json.loads(lines[1].decode()) if len(lines) >= 3 and lines[1] else {}
+        obs['reader'] = second.get('reader')
+        obs['dbg_load'] = second.get('dbg_load')
         if obs['reader'] is None and obs['out_exists']:
             try:
                 Reader(out)
